@@ -79,6 +79,7 @@ CaseResult judge(const fe::Obs &o, const std::string &kind)
       if (!natural) {
         if (o.r2 <= 0) res.fail("retry-failed", ctx + "the handle could not be started again after the failure: second reproc_start returned " + std::to_string(o.r2));
         else if (!o.hello2) res.fail("retry-no-program", ctx + "second reproc_start reported success but the program did not come up");
+        else if (o.retry_poll != -1000 && (o.retry_poll != 0 || o.retry_events != 0)) res.fail("retry-handle-state", ctx + "after the restart the child idles and nothing has a deadline, yet a zero-timeout poll for its exit returned " + std::to_string(o.retry_poll) + " with events " + std::to_string(o.retry_events) + " (state left over from the failed start)");
       } else if (o.r2 >= 0 || -o.r2 != o.natural_errno) {
         res.fail("retry-wrong-cause", ctx + "second reproc_start of an unstartable program returned " + std::to_string(o.r2) + ", expected -" + std::to_string(o.natural_errno));
       }
